@@ -22,11 +22,17 @@ BlockClauses(r) ==
   << <<"checkblock-accepts-iff-rules",
        (r.out.k = "ret") = CheckBlock(r.chain, r.in.blk, r.in.now, r.in.pow, r.in.merkle)>>,
      <<"rejection-is-validation-error", r.out.k = "ret" \/ IsValidationError(r.out)>> >>
+\* the header-only check on its own (a header, or a block passed as one): proof of work if asked for, and the timestamp
+HeaderClauses(r) ==
+  << <<"checkblockheader-accepts-iff-rules",
+       (r.out.k = "ret") = ((r.in.pow => R_pow(r.chain, r.in.blk)) /\ TimeOk(r.in.blk, r.in.now))>>,
+     <<"rejection-is-validation-error", r.out.k = "ret" \/ IsValidationError(r.out)>> >>
 Clauses(r) ==
   CASE r.op = "merkle.block" -> MerkleClauses(r)
     [] r.op = "merkle.root" -> RootClauses(r)
     [] r.op = "check.tx" -> TxClauses(r)
     [] r.op = "check.blk" -> BlockClauses(r)
+    [] r.op = "check.hdr" -> HeaderClauses(r)
     [] OTHER -> << <<"unknown-op", FALSE>> >>
 TraceInit == l = TraceStart
 TraceNext == l <= Len(Recs) /\ Judge(Recs[l], Clauses(Recs[l])) /\ l' = l + 1
